@@ -313,8 +313,9 @@ def modes(ctx, fx):
                 if side == "read" and mode == "noData":
                     continue        # never called for noData (checked at the call site in syncRecvApply)
                 if side == "write":
-                    first = [[S(x) for x in e.get("a", [])][1:2] for _, e in calls]
-                    if calls and first != [["data_mode"]]:
+                    # the wire is the concatenation of the calls' arguments: one variadic call or several in a row alike
+                    first = [x for _, e in calls for x in [S(y) for y in e.get("a", [])][1:]]
+                    if calls and (first[:1] != ["data_mode"] or first.count("data_mode") != 1):
                         det.append("%s: the mode word is not written first (%s)" % (mode, first))
                     if not calls and not (mode == "noData"):
                         det.append("%s: nothing written" % mode)
@@ -587,7 +588,8 @@ def net_shape(ctx, fx):
 def edge_sibling(ctx, fxp):
     ctx.rule("C18.edge.sibling-agreement",
              "GluonEdgeSubstrate is a copy of GluonSubstrate for edge data: every member function the two class templates share "
-             "(same name and arity; template patterns, so no instantiation is needed) performs the same sequence of calls after "
+             "(same name and arity; template patterns, so no instantiation is needed) makes the same calls the same number of times "
+             "in the same may-follow order (which call can come after which, over the CFG -- not the textual order) after "
              "the renaming getEdgeData->getData, sizeEdges->size, numOwnedEdges->numMasters (callee names in order; argument lists "
              "differ because the edge copy has no write/read locations); frozen, reasoned exceptions: sync (edges are "
              "synchronised any->any only: sync -> sync_any_to_any -> reduce, then broadcast, unconditionally), broadcast (no on-demand "
@@ -597,12 +599,82 @@ def edge_sibling(ctx, fxp):
            ("convertLIDToGID", 3): "extra gWarn"}
 
     def seq(f):
-        out = []
-        for b in f.get("blocks", []):
-            for e in b["ev"]:
+        """what the function calls and in which order, independent of how the branches are laid out in the text: the multiset
+        of callee names plus the may-follow relation between them ((x, y): a call of y can come after a call of x). Patterns
+        have no CFG; the extractor's structure markers (if: then / else / end, loops: body / end) give the nesting: events
+        of the two branches of one `if` never follow each other, events inside one loop all follow each other. Names only:
+        the edge copy drops location arguments; a (de)serialisation call counts once per value so that one variadic call
+        and several calls in a row are the same."""
+        evs = [e for b in f.get("blocks", []) for e in b["ev"]]
+        pos = [0]
+
+        def parse(stop):
+            """-> list of items: ("c", name, weight) | ("if", [then items], [else items]) | ("loop", [items])"""
+            out = []
+            while pos[0] < len(evs):
+                e = evs[pos[0]]
+                if e.get("k") == "ctl":
+                    ph = e.get("ph")
+                    if ph in stop:
+                        return out
+                    pos[0] += 1
+                    if ph == "then":
+                        th = parse(("else",))
+                        pos[0] += 1          # the else marker
+                        el = parse(("end",))
+                        pos[0] += 1          # the end marker
+                        out.append(("if", th, el))
+                    elif ph == "body":
+                        bd = parse(("end",))
+                        pos[0] += 1
+                        out.append(("loop", bd))
+                    elif ph == "switch":
+                        bd = parse(("end",))
+                        pos[0] += 1
+                        out.append(("loop", bd))      # cases may fall through: treated like a loop (every order possible)
+                    continue
+                pos[0] += 1
                 if e.get("k") == "call" and e.get("name") and not e["name"].startswith("operator"):
-                    out.append(ren.get(e["name"], e["name"]))      # names only: the edge copy drops location arguments
-        return out
+                    n = ren.get(e["name"], e["name"])
+                    w = max(1, len(e.get("a", [])) - 1) if n in ("gSerialize", "gDeserialize") else 1
+                    out.append(("c", n, w))
+            return out
+        tree = parse(())
+        count, follow = {}, set()
+
+        def names(items):
+            r = set()
+            for it in items:
+                if it[0] == "c":
+                    r.add(it[1])
+                elif it[0] == "if":
+                    r |= names(it[1]) | names(it[2])
+                else:
+                    r |= names(it[1])
+            return r
+
+        def walk_items(items):
+            before = set()
+            for it in items:
+                if it[0] == "c":
+                    count[it[1]] = count.get(it[1], 0) + it[2]
+                    here = {it[1]}
+                elif it[0] == "if":
+                    walk_items(it[1]); walk_items(it[2])
+                    here = names(it[1]) | names(it[2])
+                else:
+                    walk_items(it[1])
+                    here = names(it[1])
+                    for x in here:
+                        for y in here:
+                            follow.add((x, y))
+                for x in before:
+                    for y in here:
+                        follow.add((x, y))
+                before |= here
+        walk_items(tree)
+        follow -= {(x, x) for x in ("gSerialize", "gDeserialize")}      # one call or several in a row: the count decides
+        return sorted(count.items()), sorted(follow)
     A, B = {}, {}
     for f in fxp.functions:
         if f["kind"] != "pattern" or "lambda" in f["qn"]:
@@ -624,16 +696,17 @@ def edge_sibling(ctx, fxp):
             a, b = seq(fa), seq(fb)
             if k in exc:
                 if k == ("sync", 1):
-                    names = [x for x in b if x.startswith("sync_")]
+                    names = [x for x, c in b[0] for _ in range(c) if x.startswith("sync_")]
                     ok = names == ["sync_any_to_any"]
                     ctx.ob("C18.edge.sibling-agreement", "GluonEdgeSubstrate::sync", ok,
                            "edge sync dispatches to %s, expected sync_any_to_any only" % names,
                            "%s:%s" % (fb["file"], fb["line"]), "sync")
                 continue
-            da = [x for x in a if x not in b]
-            db = [x for x in b if x not in a]
+            da = [x for x in a[0] if x not in b[0]] or [x for x in a[1] if x not in b[1]]
+            db = [x for x in b[0] if x not in a[0]] or [x for x in b[1] if x not in a[1]]
             ctx.ob("C18.edge.sibling-agreement", "%s/%d" % k, a == b,
-                   "GluonSubstrate does %s that the edge copy does not; the edge copy does %s" % (da[:4], db[:4]) if a != b else "",
+                   "GluonSubstrate calls / orders %s that the edge copy does not; the edge copy has %s (callee, count) or "
+                   "(earlier, later)" % (da[:4], db[:4]) if a != b else "",
                    "%s:%s" % (fb["file"], fb["line"]), "%s/%d@%s" % (k[0], k[1], fb["line"]))
 
 
